@@ -3,6 +3,7 @@
 -/
 import GeonumModel.Lemmas.AngleStep
 import GeonumModel.Lemmas.Shift
+import GeonumModel.Lemmas.Exact
 
 set_option linter.unusedSectionVars false
 set_option linter.unusedVariables false
@@ -78,8 +79,42 @@ theorem wedge_angle {a b : Geonum F} (ha : a.angle.Inv) (hb : b.angle.Inv) :
 
 end S
 
-/-! PARTIAL (E-tier, not yet proved): the sine is sin(T b − T a); vanishing for parallel operands; anticommutation (swap keeps the
-    magnitude and moves the blade by exactly two); Lagrange dot² + wedge² = (|a||b|)².  Explored by `oracle.C10.wedge`. -/
+/-! ### E-tier: exact arithmetic -/
+section E
+open GeonumModel.Exact
+
+/-- (E) wedge magnitude is `|a||b|·|sin(T b − T a + δ)|` with the same snap slack `δ` as the dot product; the dot magnitude is
+    `|a||b|·|cos(T b − T a + δ)|`; hence **Lagrange's identity** `dot² + wedge² = (|a||b|)²` holds exactly -/
+theorem wedge_dot_real {a b : Geonum ℝ} (ha : a.angle.Inv) (hb : b.angle.Inv) :
+    ∃ δ : ℝ, |δ| < 1 / 10 ^ 10 + 1 / 10 ^ 15 ∧
+      (a.wedge b).mag = a.mag * b.mag * |Real.sin (T b.angle - T a.angle + δ)| ∧
+      (a.dot b).mag = |a.mag * b.mag * Real.cos (T b.angle - T a.angle + δ)| := by
+  obtain ⟨δ, hδ, hcos, hsin⟩ := cos_sub_gradeAngle ha hb
+  refine ⟨δ, hδ, ?_, ?_⟩
+  · rw [← hsin]; rfl
+  · rw [← hcos]; rfl
+
+theorem lagrange_real {a b : Geonum ℝ} (ha : a.angle.Inv) (hb : b.angle.Inv) :
+    (a.dot b).mag ^ 2 + (a.wedge b).mag ^ 2 = (a.mag * b.mag) ^ 2 := by
+  obtain ⟨δ, _, hw, hd⟩ := wedge_dot_real ha hb
+  rw [hw, hd, sq_abs, mul_pow, mul_pow _ (|Real.sin _|), sq_abs]
+  have := Real.sin_sq_add_cos_sq (T b.angle - T a.angle + δ)
+  nlinarith [this]
+
+/-- (E) the wedge vanishes for parallel operands (same total, up to the snap slack it is below `|a||b|·(1e-10+1e-15)`) -/
+theorem wedge_parallel_real {a b : Geonum ℝ} (ha : a.angle.Inv) (hb : b.angle.Inv) (h0a : 0 ≤ a.mag) (h0b : 0 ≤ b.mag)
+    (hpar : T b.angle = T a.angle) : (a.wedge b).mag ≤ a.mag * b.mag * (1 / 10 ^ 10 + 1 / 10 ^ 15) := by
+  obtain ⟨δ, hδ, hw, _⟩ := wedge_dot_real ha hb
+  rw [hw, hpar, sub_self, zero_add]
+  apply mul_le_mul_of_nonneg_left _ (mul_nonneg h0a h0b)
+  have := sin_lipschitz 0 δ
+  simp only [zero_add, Real.sin_zero, sub_zero] at this
+  linarith
+
+end E
+
+/-! PARTIAL (not yet proved): anticommutation (swap keeps the magnitude up to the slack and moves the blade by exactly two).
+    Explored by `oracle.C10.wedge`. -/
 
 example {F : Type} [FloatSpec F] : (⟨zero, 2⟩ : Angle F).Inv := inv_zero 2
 
